@@ -232,6 +232,24 @@ def _diff_state(a: Dict[str, Any], b: Dict[str, Any]) -> List[str]:
     return sorted(set(fields))
 
 
+def _primary(fields: List[str]) -> str:
+    """One coarse symptom per case (most fundamental difference first) so that one root cause is one bucket."""
+    fs = set(fields)
+    if "error result" in fs:
+        return "error result"
+    if fs & {"instructions executed", "instruction count"}:
+        return "number of instructions executed"
+    if fs & {"cycles executed", "cycle count"}:
+        return "cycle count"
+    if "power" in fs:
+        return "power state"
+    if any(f.startswith("reg ") for f in fs):
+        return "registers"
+    if fs & {"internal memory", "external memory"}:
+        return "memory"
+    return "interrupt/timer bookkeeping"
+
+
 def check_cpu(case: Dict[str, Any], obs: Dict[str, Any]) -> Tuple[List[Violation], List[str], bool]:
     out: List[Violation] = []
     labels: List[str] = []
@@ -255,8 +273,9 @@ def check_cpu(case: Dict[str, Any], obs: Dict[str, Any]) -> Tuple[List[Violation
         fields += _diff_state(s["state"], a["state"])
         fields = sorted(set(fields))
         if fields:
-            out.append(Violation("cpu-equivalence", where, "differs from CoreRuntime::step: " + ", ".join(fields[:6]),
-                                 case, f"call {i} (n={case['calls'][i]}, slice={case.get('slice', 'default')}): "
+            out.append(Violation("cpu-equivalence", where, "differs from CoreRuntime::step: " + _primary(fields),
+                                 case, f"call {i} (n={case['calls'][i]}, slice={case.get('slice', 'default')}); "
+                                       f"differing fields: {', '.join(fields[:12])}; "
                                        f"sync err={s['err']} d_instr={s['d_instr']} d_cycles={s['d_cycles']} "
                                        f"PC={s['state']['regs'].get('PC')}; async err={a['err']} "
                                        f"d_instr={a['d_instr']} d_cycles={a['d_cycles']} "
